@@ -68,6 +68,7 @@ type conn struct {
 	wg        *sync.WaitGroup
 	badWrites bool
 	closeOnce sync.Once
+	closeMs   int
 }
 
 func (p *conn) Read(buf []byte) (int, error) { return p.reader.Read(buf) }
@@ -80,6 +81,11 @@ func (p *conn) Write(buf []byte) (int, error) {
 func (p *conn) ID() string { return p.src }
 func (p *conn) Close() error {
 	p.closeOnce.Do(func() {
+		if p.closeMs > 0 {
+			// a deployment that takes a while to go away: it counts as deployed until then
+			p.w.Log("conn-close-begin", p.src, nil)
+			time.Sleep(time.Duration(p.closeMs) * time.Millisecond)
+		}
 		p.w.Closes.Add(1)
 		p.w.Log("conn-close", p.src, nil)
 	})
@@ -138,7 +144,15 @@ func (c *connector) Deploy(ctx context.Context, src string) (deployer.Plugin, er
 		reader:    stdoutReader,
 		writer:    stdinWriter,
 		cancel:    cancel,
+		closeMs:   closeDelay(b, phase),
 		wg:        wg,
 		badWrites: (phase == "prepare" && b.BadWritesProbe) || (phase == "run" && b.BadWritesRun),
 	}, nil
+}
+
+func closeDelay(b DeployBehaviour, phase string) int {
+	if phase == "run" {
+		return b.CloseDelayMs
+	}
+	return 0
 }
